@@ -19,9 +19,9 @@ FUNCTIONS = ["UnitDatabase.CheckCategoryUnit memo (_category_unit_valid)", "Unit
              "AbstractValueWithQuantityObject.GetValidUnits", "Quantity.CheckValue with the captured CategoryInfo", "UnitDatabase.AddUnit/AddUnitBase/AddCategory (invalidation)",
              "UnitDatabase.Convert/GetInfo/GetDefaultCategory/FindUnitCase/GetUnits/GetQuantityTypes", "Scalar/Array/FractionScalar construction and IsValid"]
 BOUNDS = {
-    "quick": "amounts and limits: all reals; pre-state: length(m, cm) + time(s) with categories length, depth(min 0); histories: one of 22 queries (read-only or failing), "
-             "then one of 9 registrations (accepted or rejected), then the battery of all 22 queries compared warm vs fresh; all 22x9 histories",
-    "thorough": "same with two queries before the registration (all 22x22x9) and a second registration after the first battery (seeded 4000)",
+    "quick": "amounts and limits: all reals; pre-state: length(m, cm) + time(s) with categories length, depth(min 0); histories: one of 26 queries (read-only or failing), "
+             "then one of 9 registrations (accepted or rejected), then the battery of all 26 queries compared warm vs fresh; all 26x9 histories",
+    "thorough": "same with two queries before the registration (all 26x26x9) and a second registration after the first battery (seeded 4000)",
 }
 ASSUMPTIONS = ["A-FP", "'fresh database built from the same registrations' = the pre-state registrations plus the history's ACCEPTED registrations, in order",
                "memo tables are not part of the registry snapshot (their invisibility is exactly the second clause)"]
@@ -47,7 +47,15 @@ def queries(V):
 
     x, y = V["x"], V["y"]
     db = lambda: UnitDatabase.GetSingleton()
+    from collections import OrderedDict
+    from barril.units import Quantity
+
+    spec = lambda: OrderedDict([("length", ["m", 1]), ("time", ["s", -1])])
     Q = [
+        ("CreateDerived(m/s, caption)", lambda: (lambda q: (q.GetUnit(), q.GetUnknownCaption()))(Quantity.CreateDerived(spec(), unknown_unit_caption="flow-ish"))),
+        ("CreateDerived(m/s)", lambda: (lambda q: (q.GetUnit(), q.GetUnknownCaption()))(Quantity.CreateDerived(spec()))),
+        ("Scalar(x,m,c9) [c9 registered later]", lambda: (lambda s: (s.GetValue("cm"), s.GetCategory()))(Scalar(x, "m", "c9"))),
+        ("db.CheckCategoryUnit(c9,cm)", lambda: db().CheckCategoryUnit("c9", "cm")),
         ("Scalar(x,m,depth).GetValue(cm)", lambda: Scalar(x, "m", "depth").GetValue("cm")),
         ("Scalar(x,cm).IsValid", lambda: Scalar(x, "cm").IsValid()),
         ("Scalar(x,m,depth).IsValid", lambda: Scalar(x, "m", "depth").IsValid()),
@@ -89,7 +97,7 @@ def registrations(V):
     ]
 
 
-NQ, NR = 22, 9
+NQ, NR = 26, 9
 
 
 def items(tier, seed):
@@ -200,7 +208,7 @@ def props(cfg, T, obs):
         for (qn, _w, _f), c in zip(bat, cs):
             P.append(("battery %d: '%s' answers the same on the warm database as on a fresh one" % (bi, qn), c))
     if cfg.get("canary"):
-        qn, w, f = obs["battery"][0][0]
+        qn, w, f = [b for b in obs["battery"][0] if b[0] == "Scalar(x,m,depth).GetValue(cm)"][0]
         P.append(("canary:Scalar(x,m,depth).GetValue(cm) is x", w[0] == "ok" and _same(w[1], T["x"])))
     return P
 
